@@ -527,6 +527,8 @@ func runC03(c *hx.Ctx) {
 	x.hugePacket()
 	x.encoderCases()
 	x.connCases()
+	x.interruptedCases()
+	x.closeBehindSend()
 	x.loopbackQuick()
 	if c.Thorough() {
 		x.loopbackCases()
@@ -589,6 +591,8 @@ func (x *c03) replay(path string) {
 			x.gatedIntact()
 		case "closebehind":
 			x.closeBehindSend()
+		case "interrupted":
+			x.interruptedPacket(kv(f, "kind"))
 		case "closeunblocks":
 			x.closeUnblocksReceive(kv(f, "kind"))
 		case "rearm":
